@@ -78,7 +78,7 @@ def gen_instance(rng, maxvars):
         c = [rng.choice([-2, -1, 0, 1, 2]) for _ in range(n)]
         B = rng.choice([1, 2])
         A = B * sum(abs(v) for v in c) + rng.choice([0.5, 1])
-        return {"cls": cls, "inst": {"c": c, "S": S, "b": b}, "A": A, "B": B, "strict": True, "default": False}
+        return {"cls": cls, "inst": {"c": c, "S": S, "b": b, "as_arrays": rng.random() < 0.4}, "A": A, "B": B, "strict": True, "default": False}
     if cls == "JobSequencing":
         m = 3 if rng.random() < 0.35 else 2          # three workers: also more workers than jobs
         nj = rng.randint(1, 2) if m == 3 else rng.randint(1, 3)
@@ -137,6 +137,15 @@ def build(case):
     if cls == "GraphPartitioning":
         return problems.GraphPartitioning({tuple(e) for e in inst["edges"]})
     if cls == "BILP":
+        if inst.get("as_arrays"):
+            # numpy arrays that the caller recycles afterwards: the instance must keep the problem it was given
+            import numpy as np
+            c_, S_, b_ = np.array(inst["c"]), np.array(inst["S"]), np.array(inst["b"])
+            prob_ = problems.BILP(c_, S_, b_)
+            c_ += 7
+            S_ *= 0
+            b_ -= 3
+            return prob_
         return problems.BILP(list(inst["c"]), [list(r) for r in inst["S"]], list(inst["b"]))
     if cls == "JobSequencing":
         # the job lengths as every documented container: list, tuple, dict - and dict subclasses
